@@ -16,7 +16,7 @@ func (dv *Router) advertDataFetch(nodeId enc.Name, seqNo uint64) {
 	// debounce; wait before fetching, then check if this is still the latest
 	// sequence number known for this neighbor
 	time.Sleep(10 * time.Millisecond)
-	if ns := dv.neighbors.Get(nodeId); ns == nil || ns.AdvertSeq != seqNo {
+	if !dv.advertDataIsWanted(nodeId, seqNo) {
 		return
 	}
 
@@ -79,6 +79,17 @@ func (dv *Router) advertDataFetch(nodeId enc.Name, seqNo uint64) {
 		log.Warnf("advertDataFetch: failed to express Interest: %+v", err)
 		retryLater()
 	}
+}
+
+// Check that seqNo is still the latest sequence number known for this neighbor.
+// The neighbor table is shared with the Sync Interest handler and the dead
+// neighbor check, so it is only accessed with the router mutex held.
+func (dv *Router) advertDataIsWanted(nodeId enc.Name, seqNo uint64) bool {
+	dv.mutex.Lock()
+	defer dv.mutex.Unlock()
+
+	ns := dv.neighbors.Get(nodeId)
+	return ns != nil && ns.AdvertSeq == seqNo
 }
 
 // Received advertisement Interest
